@@ -216,6 +216,13 @@ def sweep(tier="quick", seed=0, unsupported=()):
 
 
 def replay(contract, label, model, note=""):
+    if contract.startswith("RecordTensor.select"):
+        # the select contract shared from C02: its own oracle drives the real RecordTensor
+        from . import c02 as _c02
+
+        r2 = _c02.replay(contract, label, model, note)
+        if r2.get("reproduced"):
+            return r2
     rnd = random.Random(1)
     tried = 0
     for _ in range(60):
